@@ -27,6 +27,7 @@ inductive Obs where
   | rd (sid : Nat) (n : Int)      -- the application read n body bytes of stream sid
   | crst (sid : Nat)              -- the peer reset stream sid (issued by the harness while quiescing)
   | closed                        -- the endpoint closed the connection
+  | skipped                       -- the scripted application step could not be performed (handler busy / gone)
   | other                         -- anything else (response HEADERS/DATA, blocked/busy markers)
 deriving Repr, DecidableEq
 
@@ -73,15 +74,18 @@ structure Mon where
   sumData : Int          -- ghost: Σ flow-controlled length of DATA within the windows
   maxSid : Nat
   streams : List StreamSt
-deriving Repr
+deriving Repr, DecidableEq
 
-def Mon.init : Mon := ⟨false, false, 0, 0, 0, 0, 0, 0, 0, []⟩
+/-- Before any connection: the RFC initial window, nothing sent or received. -/
+def Mon.init : Mon := ⟨false, false, 0, 0, initialWindowSize, 0, 0, 0, 0, []⟩
 
 def findStream (ss : List StreamSt) (sid : Nat) : Option StreamSt :=
   ss.find? (fun s => s.id == sid)
 
-def updStream (ss : List StreamSt) (sid : Nat) (f : StreamSt → StreamSt) : List StreamSt :=
-  ss.map (fun s => if s.id == sid then f s else s)
+/-- Update the stream `findStream` would return (the first with that id). -/
+def updStream : List StreamSt → Nat → (StreamSt → StreamSt) → List StreamSt
+  | [], _, _ => []
+  | s :: rest, sid, f => if s.id == sid then f s :: rest else s :: updStream rest sid f
 
 /-- Flow-controlled length of a DATA frame. -/
 def flowLen (len pad : Int) : Int := if pad < 0 then len else len + pad + 1
@@ -101,6 +105,7 @@ deriving Repr
 
 def dataAct (m : Mon) (sid : Nat) (len pad : Int) (es : Bool) : ActOut :=
   let L := flowLen len pad
+  if len < 0 ∨ pad < -1 then ⟨{ m with dead := true }, none⟩ else   -- not a DATA frame
   match findStream m.streams sid with
   | none =>
     -- DATA on an idle stream is a connection error (PROTOCOL_ERROR); not a flow-control matter
@@ -131,7 +136,8 @@ def setStatus (m : Mon) (sid : Nat) (st : SStatus) : Mon :=
 
 def actStep (m : Mon) : Act → ActOut
   | .reset c s =>
-    ⟨{ Mon.init with started := true, configured := c, streamInit := s, conn := initialWindowSize }, none⟩
+    if s < 0 ∨ s > maxWindow then ⟨{ Mon.init with started := true, dead := true }, none⟩
+    else ⟨{ Mon.init with started := true, configured := c, streamInit := s }, none⟩
   | .hdr sid cl es =>
     if sid ≤ m.maxSid ∨ sid % 2 = 0 then ⟨{ m with dead := true }, none⟩
     else ⟨{ m with maxSid := sid,
@@ -177,6 +183,7 @@ def obsStep (fc : Option Nat) (m : Mon) : Obs → Except String Mon
         .ok (if st.status = .closed then { m1 with over := m1.over + n } else m1)
   | .crst sid => .ok (setStatus m sid .closed)
   | .closed => .ok { m with dead := true }
+  | .skipped => .ok m
   | .other => .ok m
 
 def obsFold (fc : Option Nat) (m : Mon) : List Obs → Except String Mon
@@ -189,34 +196,50 @@ def obsFold (fc : Option Nat) (m : Mon) : List Obs → Except String Mon
 
 def hasFC (sid : Nat) (obs : List Obs) : Bool := obs.contains (.rst sid errFlowControl)
 
+/-- An application step the harness could not perform (handler blocked in a read, or gone)
+has no effect of its own. -/
+def effAct (a : Act) (obs : List Obs) : Act :=
+  match a with
+  | .bclose _ | .hexit _ => if obs.contains .skipped then .read 0 else a
+  | _ => a
+
+/-- The `reset` line: a new connection; the initial WINDOW_UPDATE must bring the peer's view
+to the configured size up to a batching residue. -/
+def resetLine (m : Mon) (l : Line) : Except String Mon :=
+  match obsFold none (actStep m l.act).m l.obs with
+  | .error e => .error e
+  | .ok m' => if m'.dead || residueOK m' then .ok m' else .error "initial-window-not-configured"
+
+/-- End-of-line check: at `quiesce` every handler has returned and the C10 statement is checked. -/
+def finishLine (act : Act) (m' : Mon) : Except String Mon :=
+  match act with
+  | .quiesce =>
+    if m'.dead || residueOK m' then
+      .ok { m' with streams := m'.streams.map (fun s => { s with status := .closed }) }
+    else if m'.configured + m'.over - m'.conn < 0 then .error "over-refund" else .error "credit-leak"
+  | _ => .ok m'
+
+/-- Any other line, on a live connection. -/
+def liveLine (m : Mon) (act : Act) (obs : List Obs) : Except String Mon :=
+  let a := actStep m act
+  if a.m.dead then .ok a.m else
+  match a.expectFC with
+  | some sid =>
+    if !hasFC sid obs then .error "excess-data-not-refused"
+    else obsFold (some sid) a.m obs
+  | none =>
+    match obsFold none a.m obs with
+    | .error e => .error e
+    | .ok m' => finishLine act m'
+
 /-- One trace line. -/
 def lineStep (m : Mon) (l : Line) : Except String Mon :=
   match l.act with
-  | .reset .. =>
-    let a := actStep m l.act
-    match obsFold none a.m l.obs with
-    | .error e => .error e
-    | .ok m' => if m'.dead || residueOK m' then .ok m' else .error "initial-window-not-configured"
-  | act =>
+  | .reset .. => resetLine m l
+  | act0 =>
     if !m.started then .ok m  -- nothing to check before a connection exists
     else if m.dead then .ok m
-    else
-      let a := actStep m act
-      if a.m.dead then .ok a.m else
-      match a.expectFC with
-      | some sid =>
-        if !hasFC sid l.obs then .error "excess-data-not-refused"
-        else obsFold (some sid) a.m l.obs
-      | none =>
-        match obsFold none a.m l.obs with
-        | .error e => .error e
-        | .ok m' =>
-          match act with
-          | .quiesce =>
-            if m'.dead || residueOK m' then
-              .ok { m' with streams := m'.streams.map (fun s => { s with status := .closed }) }
-            else if m'.configured + m'.over - m'.conn < 0 then .error "over-refund" else .error "credit-leak"
-          | _ => .ok m'
+    else liveLine m (effAct act0 l.obs) l.obs
 
 def run (m : Mon) : List Line → Except String Mon
   | [] => .ok m
